@@ -15,11 +15,14 @@ NULL = ("null",)
 # ------------------------------------------------------------------------------------------- inferred-return alphabet
 # typed return-value letters: source -> tuple of atom-sets the statement produces per position
 INT, STR, BOOL, FLT = ("n", "Int", ()), ("n", "String", ()), ("n", "Boolean", ()), ("n", "Float", ())
+BYTES, CPLX = ("n", "bytes", ()), ("n", "complex", ())
 RV_TYPED = {
     "1": ((INT,),), '"s"': ((STR,),), "True": ((BOOL,),), "1.5": ((FLT,),), "None": ((NULL,),), "": ((NULL,),), "-1": ((INT,),),
     '1, "s"': ((INT,), (STR,)), '"s", 1': ((STR,), (INT,)), "1, 2, 3": ((INT,), (INT,), (INT,)), '1 if c else "s"': ((INT, STR),),
     # conditional expressions with one branch of no definite literal type (only the literal branch must be covered), on either side
     'xs[0] if c else "s"': ((STR,),), '"s" if c else xs[0]': ((STR,),), "c + 1 if c else 1.5": ((FLT,),), "[1] if c else None": ((NULL,),), "len(xs) if c else 1": ((INT,),),
+    # the two other kinds of Python literals: bytes and imaginary numbers
+    'b"x"': ((BYTES,),), "1j": ((CPLX,),),
     "(c == 1) if xs else (1, 1.5)": ((INT,), (FLT,)), '1 if c else ("s" if xs else 1.5)': ((INT, STR, FLT),), "not 1": ((BOOL,),), "1, len(xs)": ((INT,), ()),
 }  # fmt: skip
 RV_QUICK2 = ["1", '"s"', "True", "None", "", '1, "s"', '"s", 1', "1.5"]
@@ -211,6 +214,20 @@ def run(rep: Report, tier: str, seed: int) -> None:
         for method in ((False,) if tier == "quick" and not label.startswith("1") else (False, True)):
             cases.append(Case(cid, render_inferred(cid, stmts, method), ("inf", stmts, risky, method), (), label + (":m" if method else "")))
             cid += 1
+    # the same bodies under other signatures: parameters with type hints (the type checker then builds a typed signature
+    # whose return type is an implicit Any) and 'async def' (the return type is wrapped into a coroutine type)
+    for stmts, label, risky in enumerate_inferred(tier):
+        if not (label.startswith(("1:top:", "1:if:", "1u:top:")) or (tier == "thorough" and label.startswith("2:"))):
+            continue
+        for method in (False, True):
+            for sig in ("typed", "async", "async_typed"):
+                src = render_inferred(cid, stmts, method)
+                if "typed" in sig:
+                    src = src.replace("(c, xs, self_like=None):", "(c: int, xs: list, self_like=None):").replace("(self_like, c, xs):", "(self_like, c: int, xs: list):")
+                if "async" in sig:
+                    src = src.replace(f"def f{cid}(", f"async def f{cid}(")
+                cases.append(Case(cid, src, ("inf", stmts, risky, method), (), f"{label}:sig={sig}" + (":m" if method else "")))
+                cid += 1
     for lines, stmts, label in enumerate_shared(tier):
         for method in (False, True):
             cases.append(Case(cid, render_shared(cid, lines, method), ("inf", stmts, False, method), (), label + (":m" if method else "")))
@@ -267,9 +284,9 @@ def run(rep: Report, tier: str, seed: int) -> None:
             infdoc_cases.append(Case(cid, src, ("inf", stmts, False, False), (), f"infdoc:{r1 or 'bare'}+{r2 or 'bare'}:{ndoc}{'N' if named else 'u'}"))
             cid += 1
     rep.rule = (
-        "inferred: one return statement under every statement context (16 contexts, depth<=%s) x 20 typed (incl. conditional expressions with one untypable branch on either side, nested conditionals, tuples with an untypable item) + 14 untyped return expressions (whatever is inferred for them must not be the name of a variable, parameter, function or function-local class); two return statements at depth<=1 over %d typed letters%s;"
+        "inferred: one return statement under every statement context (16 contexts, depth<=%s) x 22 typed (incl. bytes and imaginary literals, conditional expressions with one untypable branch on either side, nested conditionals, tuples with an untypable item) + 14 untyped return expressions (whatever is inferred for them must not be the name of a variable, parameter, function or function-local class); two return statements at depth<=1 over %d typed letters%s;"
         " return statements in 2..4 clauses of one try statement (each clause: none / return / conditional return; 72 shapes) and in the branches of one if / for-else / while-else / match;"
-        " functions and methods. annotated: 15 annotation terms alone and as tuple[...] of 1..3, also on 'async def'; numpydoc result sections with 0..3 entries, each named or unnamed, against 1..3 results."
+        " functions and methods; the one-statement cases again with type hints on the parameters, as 'async def', and both. annotated: 15 annotation terms alone and as tuple[...] of 1..3, also on 'async def'; numpydoc result sections with 0..3 entries, each named or unnamed, against 1..3 results."
         " distinct = distinct case label" % ("1 + 8 depth-2 paths" if tier == "quick" else "2 (complete)", len(RV_QUICK2) if tier == "quick" else len(RV_TYPED), "" if tier == "quick" else "; three return statements over top/if/else x 8 letters")
     )
     stats: dict[str, int] = {}
